@@ -47,7 +47,7 @@ func main() { hlib.Main("counter", &counterComp{}) }
 
 type counterComp struct{}
 
-var resolutions = []int64{1e9, 2e9, 15e8, 7e9, 10e9, 60e9}
+var resolutions = []int64{1e9, 2e9, 15e8, 7e9, 10e9, 60e9, 11e8, 13e8, 21e8, 11e8, 2500000001} // also decimal ones no binary fraction represents
 
 type ev struct{ t, v int64 }
 
@@ -93,8 +93,10 @@ func (c *counterComp) Gen(rng *rand.Rand, idx int, tier string, targeted bool) h
 				d--
 			}
 			return d
-		case k < 60: // exactly one resolution
+		case k < 55: // exactly one resolution
 			return r
+		case k < 60: // exactly k resolutions
+			return int64(2+rng.Intn(11)) * r
 		case k < 72: // a few slots
 			return int64(rng.Intn(int(n)+2))*r + rng.Int63n(r)
 		case k < 82: // the edges of the window: (N-1)*r, N*r, one ns either side
